@@ -6,7 +6,7 @@ INFO = {
     "level_note": "RoadNetwork objects are assumed unmodified after construction; the file-reader objects and the Reporter are stateful by design but are not part of the simulation state (they live in Update / Environment); numpy tables are assumed never written; C extensions (immutables, h3) trusted.",
     "technique": "contract-based: universal frame condition `modifies nothing` discharged per function by a syntactic frame rule over the real AST, plus immutability of the state's value classes",
     "trusted_base": ["immutables.Map / frozenset / tuple are immutable", "frozen dataclasses and NamedTuples cannot be assigned to (object.__setattr__ is scanned for)"],
-    "assumptions": ["RoadNetwork instances are not mutated after construction", "DictReaderIterator / Reporter are outside the simulation state"],
+    "assumptions": ["RoadNetwork instances are not mutated after construction", "DictReaderIterator / Reporter are outside the simulation state", "an augmented assignment `x op= e` on a plain name with no binding that can yield a mutable container (literal, constructor, mutable .get() default, parameter of mutable container type) is taken to rebind an immutable value (int/float/str/tuple/frozenset)"],
     "not_decided": ["`stepping the same saved state twice gives the same result` additionally needs determinism of iteration order (C01) and of the file readers' cursors, which are consumed (they are not part of the saved state)"],
 }
 
